@@ -22,7 +22,7 @@ PROP = dict(
         "module root; module root at several levels or absent; marker script at EVERY directory level from '/' downwards",
         "import graphs: 2-7 scripts, DAGs, diamonds, several spellings of one file, cycles of length 1-4 (also through the main script)",
     ],
-    level_text="Proof: 23 Lean theorems. For ALL import-path strings, working directories, source directories and file systems the "
+    level_text="Proof: 25 Lean theorems. For ALL import-path strings, working directories, source directories and file systems the "
                "transliterated pipeline compilePackage -> importLocalFile -> findRootFromModule -> fileValue (as repaired) reads, "
                "when it resolves at all, a file whose cleaned absolute path is the module root (resp. the source directory) followed "
                "by Normal components only - no '..' (confined, confined_nomod; the proof covers strings.ReplaceAll(p,'../','') by a "
